@@ -183,7 +183,36 @@ func (e *Enc) call(fr *Frame, ins *ssa.Call, c *ssa.CallCommon, guard T, st *Sta
 	}
 	// call-site assertions (//@ at call N callee assert E) are evaluated before the call
 	e.callSiteAsserts(fr, fn, args, guard, st, ins.Pos())
+	// a function literal called directly cannot change a captured variable that neither it nor the
+	// literals nested in it ever assign (and whose address it does not pass on): such variables keep
+	// their value across the call even when the callee is otherwise abstracted by havoc
+	type keptCell struct {
+		ptr Val
+		val Val
+	}
+	var kept []keptCell
+	if mc, isMC := c.Value.(*ssa.MakeClosure); isMC && e.quantDepth == 0 && len(bind) == len(fn.FreeVars) {
+		for i, fv := range fn.FreeVars {
+			pt, isPtr := fv.Type().Underlying().(*types.Pointer)
+			if !isPtr || !readOnlyCapture(fn, i, 0) || !captureIsLocalCell(mc.Bindings[i]) {
+				continue
+			}
+			func() {
+				defer func() {
+					if r := recover(); r != nil {
+						if _, isU := r.(unsupported); !isU {
+							panic(r)
+						}
+					}
+				}()
+				kept = append(kept, keptCell{bind[i], e.nameVal(e.loadAt(st, bind[i], pt.Elem()), "kept_"+fv.Name())})
+			}()
+		}
+	}
 	setRes(e.callStatic(fr, fn, args, bind, guard, st, ins.Pos(), ins.Name()))
+	for _, k := range kept {
+		e.storeAt(st, k.ptr, k.val)
+	}
 	e.callSiteLets(fr, fn, ins, args, st)
 }
 
@@ -256,10 +285,23 @@ func (e *Enc) callStatic(fr *Frame, fn *ssa.Function, args []Val, bind []Val, gu
 		depth = fr.depth
 	}
 	ct := e.prog.contractFor(fn)
+	opaque := false
+	if e.contract != nil && e.contract.Opts["opaque"] != "" {
+		// `opt opaque=Name1,Name2`: calls of these functions are not looked into in this function
+		// (neither contract nor body): results arbitrary, everything reachable from the arguments havoc'd
+		for _, nm := range strings.Split(e.contract.Opts["opaque"], ",") {
+			if strings.TrimSpace(nm) == fn.Name() {
+				opaque = true
+			}
+		}
+	}
+	if opaque {
+		ct = nil
+	}
 	if ct != nil && !ct.Inline {
 		return e.applyContract(fr, ct, fn, fn.Signature, fn.Name(), args, guard, st, pos)
 	}
-	if fn.Blocks != nil && ((ct != nil && ct.Inline) || bind != nil || fn.Parent() != nil || e.autoInline(fn, depth)) {
+	if !opaque && fn.Blocks != nil && ((ct != nil && ct.Inline) || bind != nil || fn.Parent() != nil || e.autoInline(fn, depth)) {
 		if depth > 6 {
 			panic(unsupported("inlining too deep at " + fn.String()))
 		}
@@ -523,7 +565,18 @@ func (e *Enc) havocLvalue(sc *Scope, x CExpr, st *State) {
 		if gf := e.prog.ghostField(base.Typ, n.Name); gf != nil {
 			h, key, s := e.ghostFieldHeap(sc, st, base.Typ, gf)
 			st.H[key] = e.define(Store(h, base.L[0], e.declare(s, "ghost_"+gf.Name)), "X")
-			e.markWrite(key)
+			e.markWriteRef(key)
+			e.checkFreshWrite(key, base.L[0])
+			if e.writes != nil {
+				// remember which object's ghost field was written (used to frame loop havocs)
+				if e.writeRefs == nil {
+					e.writeRefs = map[string]map[string]bool{}
+				}
+				if e.writeRefs[key] == nil {
+					e.writeRefs[key] = map[string]bool{}
+				}
+				e.writeRefs[key][base.L[0].E] = true
+			}
 			return
 		}
 		pt, ok := base.Typ.Underlying().(*types.Pointer)
@@ -744,4 +797,82 @@ func (e *Enc) cutsBefore(fr *Frame, b *ssa.BasicBlock, i int, ins ssa.Instructio
 			panic(stopEncoding{})
 		}
 	}
+}
+
+// readOnlyCapture reports whether the function literal fn (and the literals nested in it) only
+// ever read its idx-th captured variable: every use of the captured cell is a load, a debug
+// reference, or the capture by a nested literal for which the same holds.
+func readOnlyCapture(fn *ssa.Function, idx int, depth int) bool {
+	if depth > 4 || idx >= len(fn.FreeVars) {
+		return false
+	}
+	fv := fn.FreeVars[idx]
+	if fv.Referrers() == nil {
+		return true
+	}
+	for _, r := range *fv.Referrers() {
+		switch x := r.(type) {
+		case *ssa.DebugRef:
+		case *ssa.UnOp:
+			if x.Op != token.MUL {
+				return false
+			}
+		case *ssa.MakeClosure:
+			inner, ok := x.Fn.(*ssa.Function)
+			if !ok {
+				return false
+			}
+			for j, b := range x.Bindings {
+				if b == fv && !readOnlyCapture(inner, j, depth+1) {
+					return false
+				}
+			}
+		default:
+			return false
+		}
+	}
+	return true
+}
+
+// captureIsLocalCell reports whether a closure binding is the cell of a local variable of the
+// enclosing function that is reachable only through that function's own literals (an Alloc, or
+// the phi of the per-iteration copies of a Go 1.22 loop variable).
+func captureIsLocalCell(v ssa.Value) bool {
+	switch x := v.(type) {
+	case *ssa.Alloc:
+		return !x.Heap || closureOnly(x)
+	case *ssa.Phi:
+		for _, ed := range x.Edges {
+			al, ok := ed.(*ssa.Alloc)
+			if !ok || (al.Heap && !closureOnlyOrCopied(al)) {
+				return false
+			}
+		}
+		return len(x.Edges) > 0
+	}
+	return false
+}
+
+// closureOnlyOrCopied is closureOnly for per-iteration loop variable copies, whose cells are
+// additionally merged by the loop-head phi.
+func closureOnlyOrCopied(al *ssa.Alloc) bool {
+	if al.Referrers() == nil {
+		return false
+	}
+	for _, r := range *al.Referrers() {
+		switch x := r.(type) {
+		case *ssa.DebugRef, *ssa.MakeClosure, *ssa.Phi:
+		case *ssa.UnOp:
+			if x.Op != token.MUL {
+				return false
+			}
+		case *ssa.Store:
+			if x.Addr != al {
+				return false
+			}
+		default:
+			return false
+		}
+	}
+	return true
 }
